@@ -290,12 +290,12 @@ def main(tier):
     driver.run_pool(driver.guarded(worker), cfgs, rep, chunksize=1)
     res = chrun.run_module(rep, 'ch.C17_ch', 30 if tier == 'quick' else 120)
     rep.extra['crosshair'] = [{k: r_[k] for k in ('name', 'verdict', 'seconds')} for r_ in res]
-    # sanity (not a solver verdict): the real json / yaml libraries on concrete documents
+    # validation of the library stubs: the real json / yaml libraries on boundary and random concrete documents
     n_real = real_library_round_trips(rep, 40 if tier == 'quick' else 400)
     rep.extra['real_json_yaml_round_trips_on_concrete_documents'] = n_real
     return rep.finish(
         explanation='bounded symbolic verification: every kind of both loader tables is loaded from an entry whose numbers are symbolic; identifier, terminals, kind and every value are discharged as polynomial identities, the description is compared deeply before / after, the second load equals the first; Cartesian and polar (radian and degree) notations are shown to denote the same number with angle atoms; nested documents of five shapes with symbolic complex and real leaves survive dictify/undictify and serialize/deserialize (json, yaml, yml; library calls are identity-on-representable-trees stubs that reject complex leaves as the real encoders do) unchanged and unmutated; CrossHair confirms over all paths the same for symbolic identifier / node strings and numbers through load_network and generate_component',
-        assumptions=['the real json / yaml encoders are exercised only in concrete replay and in the concrete round-trip sanity runs (C libraries are outside the symbolic model)',
+        assumptions=['the real json / yaml encoders are C / third-party code outside the symbolic model: their identity-on-representable-trees stub is validated against the real calls made by serialize / deserialize on boundary numbers (exponent notation with integral mantissa, subnormal, largest, integers) and seeded random numbers; a failing concrete round trip is reported as a violation',
                      'document keys are ordinary strings other than the encoding\'s reserved words real / imag / abs / phase / phase_deg', 'finite values',
                      'CrossHair domains: identifiers <= 2 characters, node names <= 1 character'],
         bounds={'network loader kinds': sorted(repo()['loaders'].network_branch_translators), 'circuit loader kinds': sorted(repo()['cdl'].circuit_component_translators),
@@ -304,20 +304,37 @@ def main(tier):
         trusted=['z3 (through symx and CrossHair)', 'CrossHair 0.0.110', 'symx executor'])
 
 
+BOUNDARY_REALS = [1e-05, 1e-06, 2e-07, 1.5e-05, 0.0001, 1e+16, 1e+22, 1.2345678901234567e+20, 5e-324, 1.7976931348623157e+308, 0.1, 1 / 3, -1e-05, -3e-09,
+                  100.0, 100000.0, 1e15, 9007199254740993.0, 4.7e-06, 1, -7, 10 ** 20]
+
+
 def real_library_round_trips(rep, n):
-    r = repo(); dl = r['dump_load']
+    """validation of the library stubs against the REAL json / yaml calls made by the repository's own serialize / deserialize (Serval-style):
+    the same obligations as the symbolic run, evaluated concretely on boundary numbers (exponent notation with an integral mantissa, sub-
+    normal, largest, integers, values whose text needs 17 digits) and seeded random numbers.  A failing round trip is a concrete input on the
+    real code and is reported as a violation with its replay."""
     rng = random.Random(driver.seed_of())
-    bad = 0
+    draws = []
+    for a in BOUNDARY_REALS:
+        b = rng.choice(BOUNDARY_REALS); c = rng.choice(BOUNDARY_REALS)
+        draws.append((complex(a, b), complex(c, a), a))
     for k in range(n):
-        z = complex(rng.uniform(-1e3, 1e3), rng.uniform(-1e-3, 1e-3)); w = complex(10 ** rng.uniform(-12, 12), -10 ** rng.uniform(-12, 12)); x = rng.uniform(-1e6, 1e6)
-        for shape, mk in DOCS.items():
-            doc = mk(z, w, x); before = copy.deepcopy(doc)
+        draws.append((complex(rng.uniform(-1e3, 1e3), rng.uniform(-1e-3, 1e-3)), complex(10 ** rng.uniform(-12, 12), -10 ** rng.uniform(-12, 12)), rng.uniform(-1e6, 1e6)))
+    total = 0
+    for z, w, x in draws:
+        for shape in DOCS:
             for fmt in ('json', 'yaml'):
+                cfg = {'kind': 'doc', 'shape': shape, 'fmt': fmt}
+                inputs = {'z': z, 'w': w, 'x': x}
+                total += 1
                 try:
-                    again = dl.deserialize(dl.serialize(doc, fmt), fmt)
-                    if again != before or doc != before: bad += 1
-                except Exception:
-                    bad += 1
-    if bad:
-        rep.inconclusive.append({'error': f'{bad} concrete json/yaml round trips differed (sanity run, see replay of the symbolic obligations)'})
-    return n * len(DOCS) * 2
+                    out = sx.run_concrete(execute, cfg, inputs, {})
+                except sx.HarnessError as e:
+                    rep.inconclusive.append({'cfg': cfg, 'error': f'harness error in the concrete library validation: {e}'}); continue
+                rec = {'cfg': cfg, 'key': None, 'paths': 0, 'obligations': 1, 'discharged': 0 if out['bad'] else 1, 'queries': 0, 'solver_s': 0.0, 'violations': [], 'inconclusive': []}
+                if out['bad']:
+                    sig = {'kind': out['kind'], 'obligation': out['bad'][0][0], 'exception': out.get('exception'), 'where': out.get('where'), 'symbolic_failed': [],
+                           'shape': shape, 'fmt': fmt, 'found_by': 'validation of the json / yaml stubs against the real libraries'}
+                    rec['violations'].append({'pid': PID, 'cfg': cfg, 'inputs': sx._jsonable(inputs), 'labels': {}, 'sig': sig, 'bad': [list(b) for b in out['bad'][:4]]})
+                rep.add(rec)
+    return total
